@@ -5,10 +5,13 @@ import (
 	"go/constant"
 	"go/token"
 	"go/types"
+	"sort"
 	"strings"
 
 	"golang.org/x/tools/go/ssa"
 )
+
+func boolS(b bool) string { return boolStr(b) }
 
 // instrIndex returns the index of in within its block, or -1.
 func instrIndex(in ssa.Instruction) int {
@@ -364,28 +367,120 @@ func successByEarlyExit(a ssa.CallInstruction, e ssa.Value, site ssa.Instruction
 		if !precedesBlock(a, ed.From) {
 			continue
 		}
-		seen := map[*ssa.BasicBlock]bool{}
-		st := []*ssa.BasicBlock{ed.To}
 		if tolTrue[ed] {
 			continue
 		}
-		for len(st) > 0 {
-			x := st[len(st)-1]
-			st = st[:len(st)-1]
-			if seen[x] {
-				continue
+		// Path-sensitive exploration of the non-nil side: pure classifier calls on
+		// (aliases of) e with the same other arguments are congruent, so a later test
+		// of the same classification must take the branch consistent with the earlier
+		// one; tests of e against nil must take the non-nil branch.
+		aliases := map[ssa.Value]bool{}
+		for _, al := range errAliases(e) {
+			aliases[al] = true
+		}
+		classKey := func(cond ssa.Value) (string, bool) {
+			c, ok := cond.(*ssa.Call)
+			if !ok {
+				return "", false
 			}
-			seen[x] = true
-			if x == site.Block() {
-				return false
+			n := calleeName(c.Common())
+			switch n {
+			case "errors.Is", "os.IsNotExist", "os.IsExist", "errors.As":
+			default:
+				return "", false
 			}
-			for _, s := range x.Succs {
-				if tolTrue[Edge{x, s}] {
+			if len(c.Call.Args) == 0 || !aliases[c.Call.Args[0]] {
+				return "", false
+			}
+			k := n
+			for _, a := range c.Call.Args[1:] {
+				if u, isU := a.(*ssa.UnOp); isU {
+					if g, isG := u.X.(*ssa.Global); isG {
+						k += "|global:" + g.String()
+						continue
+					}
+				}
+				k += "|" + a.Name()
+			}
+			return k, true
+		}
+		type stateKey struct {
+			b *ssa.BasicBlock
+			f string
+		}
+		visited := map[stateKey]bool{}
+		reached := false
+		var dfs func(b *ssa.BasicBlock, facts map[string]bool)
+		fkey := func(f map[string]bool) string {
+			var ks []string
+			for k, v := range f {
+				ks = append(ks, k+"="+boolS(v))
+			}
+			sort.Strings(ks)
+			return strings.Join(ks, ",")
+		}
+		dfs = func(b *ssa.BasicBlock, facts map[string]bool) {
+			if reached {
+				return
+			}
+			sk := stateKey{b, fkey(facts)}
+			if visited[sk] {
+				return
+			}
+			visited[sk] = true
+			if b == site.Block() {
+				reached = true
+				return
+			}
+			if len(b.Instrs) > 0 {
+				if iff, ok := b.Instrs[len(b.Instrs)-1].(*ssa.If); ok && b.Succs[0] != b.Succs[1] {
+					cond, pol := stripNot(iff.Cond, true) // cond==pol ⇔ If condition true
+					// nil test of e: we are on the non-nil side
+					if bo, isB := cond.(*ssa.BinOp); isB && (bo.Op == token.NEQ || bo.Op == token.EQL) &&
+						(aliases[bo.X] && isNilConst(bo.Y) || aliases[bo.Y] && isNilConst(bo.X)) {
+						condVal := bo.Op == token.NEQ // e != nil is true
+						ifTrue := condVal == pol
+						if ifTrue {
+							dfs(b.Succs[0], facts)
+						} else {
+							dfs(b.Succs[1], facts)
+						}
+						return
+					}
+					if k, ok := classKey(cond); ok {
+						if v, known := facts[k]; known {
+							if (v == pol) && !tolTrue[Edge{b, b.Succs[0]}] {
+								dfs(b.Succs[0], facts)
+							} else if v != pol && !tolTrue[Edge{b, b.Succs[1]}] {
+								dfs(b.Succs[1], facts)
+							}
+							return
+						}
+						for i, s := range b.Succs {
+							if tolTrue[Edge{b, s}] {
+								continue
+							}
+							nf := map[string]bool{}
+							for kk, vv := range facts {
+								nf[kk] = vv
+							}
+							nf[k] = (i == 0) == pol
+							dfs(s, nf)
+						}
+						return
+					}
+				}
+			}
+			for _, s := range b.Succs {
+				if tolTrue[Edge{b, s}] {
 					continue
 				}
-				// an edge on which e is known nil again cannot be taken from the non-nil side
-				st = append(st, s)
+				dfs(s, facts)
 			}
+		}
+		dfs(ed.To, map[string]bool{})
+		if reached {
+			return false
 		}
 	}
 	// additionally, the site must not be reachable from a without passing any test:
